@@ -217,7 +217,7 @@ def run(case):
 
 def legs(tier):
     ml = 8 if tier == 'quick' else 12
-    a = Leg('paths', _case(ml), run, 3000, 120000, max_shrink_buckets=8)
+    a = Leg('paths', _case(ml), run, 12000, 120000, max_shrink_buckets=8)
     return [a]
 
 
